@@ -201,6 +201,12 @@ def run(ctx):
     # ---- R14.1
     try:
         ff = body_of(ctx, "R14.1", D + "::find_file")
+        # the file's type and size are those of what the path resolves to: an ignore file that is a symlink to a regular file counts
+        mds = sorted({(t.callee.def_ or "").split("::")[-1] for g_ in [ff] + ctx.facts.descendants(ff) for _, t in g_.calls() if (t.callee.def_ or "").split("::")[-1] in ("metadata", "symlink_metadata", "symlink_metadata_sync")
+                      or (t.callee.def_ or "").endswith(("DirEntry::metadata", "DirEntry::file_type"))})
+        ctx.require(mds == ["metadata"], "R14.1", "find-file-follows-symlinks", "find_file stats the path with metadata() (following symlinks)", ff.loc(ff.line), detail=str(mds),
+                    fail="find_file no longer stats the path with metadata() (%s): a symlinked ignore file is not a `regular file` to lstat, so it is not reported and "
+                         "the directories it ignores are searched for ignore files" % mds)
         ms = [m for m in thir.find(thir.root(ff), "match") if m["src"] == "Normal" and "Result<std::fs::Metadata" in m["sty"]]
         if len(ms) != 1:
             ctx.violation("R14.1", "floor:find-file-match", "find_file no longer matches on the metadata result once", ff.loc(ff.line))
@@ -481,6 +487,10 @@ def run(ctx):
                     fail="must_skip uses %s: the skip test is no longer a component-wise ancestor walk" % sorted(extra))
     except Skip:
         pass
+
+    # ---- R14.6 pruning consults every ancestor's ignore file (walk owned by C03)
+    ctx.rule("R14.6", "check_dir's verdict for a directory takes every ancestor ignore file into account (a string-prefix sibling node does not end the search)")
+    ctx.borrow("C03", ["R03.2"], "R14.6", "match_path walks to the parent whenever the node found does not decide")
 
 
 def classify_iter(it):
